@@ -10,6 +10,7 @@ mod keys;
 mod msg;
 mod replay;
 mod rich;
+mod threads;
 
 use std::collections::HashMap;
 
@@ -40,13 +41,33 @@ fn main() {
             }
             rich::run(
                 &mut ctx,
-                &rich::RichOpts { n: num("n", 200) as usize, seed: num("seed", 1), tree, arbitrary_sel: get("arbsel", "0.2").parse().unwrap(), bad_paths: true, also_verify_issued: true, xfmt: get("xfmt", "0") == "1", only_issue: get("only", "") == "issue", plant: get("plant", "0").parse().unwrap() },
+                &rich::RichOpts { n: num("n", 200) as usize, seed: num("seed", 1), tree, arbitrary_sel: get("arbsel", "0.2").parse().unwrap(), bad_paths: true, also_verify_issued: true, xfmt: get("xfmt", "0") == "1", only_issue: get("only", "") == "issue", plant: get("plant", "0").parse().unwrap(), decoy_on: get("decoy", "0") == "1" },
             );
         }
         "attack" => attack::run(
             &mut ctx,
             &attack::AttackOpts { n: num("n", 2) as usize, seed: num("seed", 1), family: get("family", "all"), stride: num("stride", 7) as usize, both_formats: get("both", "1") == "1" },
         ),
+        "threads" => {
+            // --configs "1x200,4x200,16x100": threads x issuances per thread; or scaled from a model scenario file
+            let mut cfgs: Vec<(usize, usize)> = get("configs", "").split(',').filter(|s| !s.is_empty()).map(|c| { let mut p = c.split('x'); (p.next().unwrap().parse().unwrap(), p.next().unwrap().parse().unwrap()) }).collect();
+            if let Some(scn) = opt.get("scn") {
+                // behaviours of spec/MC_salt.tla: (threads, draws per thread) scaled up; duplicates dropped
+                let scale = num("scale", 50) as usize;
+                let limit = num("n", 6) as usize;
+                let mut seen = std::collections::HashSet::new();
+                for line in std::fs::read_to_string(scn).unwrap_or_default().lines() {
+                    if let Ok(v) = serde_json::from_str::<serde_json::Value>(line) {
+                        let (t, d) = (v["threads"].as_u64().unwrap_or(1) as usize, v["total"].as_u64().unwrap_or(1) as usize);
+                        if seen.insert((t, d)) && seen.len() <= limit {
+                            cfgs.push((t, d * scale));
+                            cfgs.push(((t * 5 + 1).min(16), d * scale / 2));
+                        }
+                    }
+                }
+            }
+            threads::run(&mut ctx, &cfgs)
+        }
         "history" => history::run(&mut ctx, &history::HistOpts { scn: get("scn", ""), limit: num("n", 1_000_000) as usize, random: num("random", 0) as usize, seed: num("seed", 1) }),
         "replay" => replay::run(&mut ctx, &replay::ReplayOpts { scn: get("scn", "scn.ndjson"), limit: num("n", 1_000_000) as usize, matrix: get("matrix", "1") == "1", seed: num("seed", 1) }),
         d => {
